@@ -255,6 +255,9 @@ impl<const N: usize> AEADCipherCodec<N> {
         aead_2022::validate_timestamp(packet.get_u64()).map_err(anyhow::Error::msg)?;
         let client_session_id = packet.get_u64();
         let padding_length = packet.get_u16();
+        if padding_length as usize > packet.remaining() {
+            bail!("padding length {} exceeds the {} bytes left in the packet", padding_length, packet.remaining());
+        }
         if padding_length > 0 {
             packet.advance(padding_length as usize);
         }
@@ -327,6 +330,9 @@ impl<const N: usize> AEADCipherCodec<N> {
         }
         aead_2022::validate_timestamp(packet.get_u64()).map_err(anyhow::Error::msg)?;
         let padding_length = packet.get_u16();
+        if padding_length as usize > packet.remaining() {
+            bail!("padding length {} exceeds the {} bytes left in the packet", padding_length, packet.remaining());
+        }
         if padding_length > 0 {
             packet.advance(padding_length as usize);
         }
